@@ -124,6 +124,7 @@ def run(ctx):
     stats = {"spec_inputs": len(specs), "pattern_inputs": len(pats), "cli_runs": 0, "ok": 0, "errors": 0}
     distinct = set()
     slines = [hx(s) for s in specs]
+    crashed = set()         # inputs on which an entry point crashed or hung: not fed to the later phases again (each costs a time-out)
     for cmd, what in (("spec", "spec.Parse"), ("ebnfast", "the typed-tree parser (ebnf ast.Parse)"), ("accept", "spec.Parse + Spec.DFA")):
         if len(ctx.violations) >= 5:
             break           # five inputs are reported at most; isolating hanging cases costs a time-out each
@@ -136,6 +137,7 @@ def run(ctx):
                 stats["errors"] += 1
             distinct.add(s)
             if c and c not in ("DFAERR",):
+                crashed.add(s)
                 if explained(decode_hex_fields(r)):
                     stats["explained_by_known_findings"] = stats.get("explained_by_known_findings", 0) + 1
                     continue
@@ -154,7 +156,7 @@ def run(ctx):
             ctx.add_violation("LALRParsingTable %s on a grammar" % {"PANIC": "panicked", "CRASH": "crashed or did not terminate"}.get(k, "returned " + k),
                               {"entry": "lalr", "input": g, "input_hex": hx(g.encode()), "implementation": decode_hex_fields(r)[:600]})
     # outcome class of spec.Parse against the total Lean model (texts that are valid UTF-8, zero bytes included)
-    texts = [s for s in specs if len(s) < 2000]
+    texts = [s for s in specs if len(s) < 2000 and s not in crashed]
     try:
         good = [t for t in texts if t.decode("utf-8") is not None]
     except Exception:
@@ -165,7 +167,7 @@ def run(ctx):
             t.decode("utf-8"); good.append(t)
         except UnicodeDecodeError:
             pass
-    impl = ctx.run_impl_par("spec", [hx(t) for t in good], isolate=True)
+    impl = ctx.run_impl_par("spec", [hx(t) for t in good], timeout=300, isolate=True)
     model = ctx.run_model_par("spec", [hx(t) for t in good])
     ncorr = 0
     for t, i, m in zip(good, impl, model):
